@@ -88,8 +88,12 @@ pub fn scenarios(prop: &str, thorough: bool) -> Vec<Scenario> {
     match prop {
         "C13" => {
             for p in ["", "a"] {
-                for variant in 0..7 {
+                for variant in 0..8 {
                     if (variant == 4 || variant == 5) && p.is_empty() {
+                        continue;
+                    }
+                    // (needs the hook point in front of update_config's lock)
+                    if variant == 7 && !crate::sched::has_update_config_hook() {
                         continue;
                     }
                     let mut u = vec![UOp::Reparse(0, p)];
@@ -100,6 +104,12 @@ pub fn scenarios(prop: &str, thorough: bool) -> Vec<Scenario> {
                         // a writer using the batch call: its notification, too, must follow the
                         // publication of every item of the batch
                         6 => inj.push((true, vec![IOp::Extend(vec![it(5, "a"), it(6, "ab")])])),
+                        // the configuration is changed while the run that a tick left behind is
+                        // in flight: the wake-up for that tick must still come
+                        7 => {
+                            u.push(UOp::Tick);
+                            u.push(UOp::Push(it(2, "a")));
+                        }
                         2 => {
                             u.push(UOp::Tick);
                             u.push(UOp::Reparse(0, if p.is_empty() { "b" } else { "ab" }));
@@ -120,7 +130,7 @@ pub fn scenarios(prop: &str, thorough: bool) -> Vec<Scenario> {
                             u.push(UOp::Restart(false));
                         }
                     }
-                    u.push(UOp::EventLoop(6));
+                    u.push(if variant == 7 { UOp::EventLoopCfg(6) } else { UOp::EventLoop(6) });
                     if variant == 0 {
                         // a writer held between reserving and publishing: every tick reports running
                         // (an item is outstanding) and every such tick must be followed by a
